@@ -31,3 +31,97 @@ package corebgp
 //@   ensures [data_kept]  err != nil || len(b) == 2 ==> n.Data == old(n.Data)
 //@   ensures [error_no_partial] err != nil ==> n.Code == old(n.Code) && n.Subcode == old(n.Subcode)
 //@   modifies *n
+
+// ---- capability helpers (C15) ----
+
+//@ func AddPathTuple.Decode returns (err)
+//@   ensures [accept_iff] (err == nil) == (len(b) >= 4 && 1 <= b[3] && b[3] <= 3)
+//@   ensures [fields]     err == nil ==> a.AFI == be16(b, 0) && a.SAFI == b[2] && a.Tx == (old(a.Tx) || b[3] >= 2) && a.Rx == (old(a.Rx) || b[3] == 1 || b[3] == 3)
+//@   ensures [class]      err != nil ==> isNotif(err, 2, 0)
+//@   modifies *a
+
+//@ func AddPathTuple.Encode returns (r)
+//@   ensures [layout] len(r) == 4 && be16(r, 0) == a.AFI && r[2] == a.SAFI && r[3] == srCode(a.Tx, a.Rx)
+//@   ensures [fresh]  fresh(r.arr)
+
+//@ func DecodeAddPathTuples returns (r, err)
+//@   ghost b0 = b
+//@   ghostvar fk int = 0
+//@   at call Decode#0 set fk = len(tuples)
+//@   ensures [accept_sound] err == nil ==> len(b) > 0 && len(b) % 4 == 0 && len(r) == len(b) / 4
+//@   ensures [values]       err == nil ==> (forall k :: 0 <= k && k < len(r) ==> 1 <= b[4*k+3] && b[4*k+3] <= 3 && r[k].AFI == be16(b, 4*k) && r[k].SAFI == b[4*k+2] && r[k].Tx == (b[4*k+3] >= 2) && r[k].Rx == (b[4*k+3] == 1 || b[4*k+3] == 3))
+//@   ensures [reject_fault] err != nil ==> r == nil && (len(b) == 0 || len(b) % 4 != 0 || (0 <= fk && 4*fk + 3 < len(b) && !(1 <= b[4*fk+3] && b[4*fk+3] <= 3)))
+//@   ensures [class]        err != nil ==> isNotif(err, 2, 0)
+//@   loop#0 invariant [suffix] suffixOf(b, b0) && offsetIn(b, b0) % 4 == 0 && len(b0) % 4 == 0
+//@   loop#0 invariant [count]  len(tuples) == offsetIn(b, b0) / 4 && fresh(tuples.arr)
+//@   loop#0 invariant [values] forall k :: 0 <= k && k < len(tuples) ==> 1 <= b0[4*k+3] && b0[4*k+3] <= 3 && tuples[k].AFI == be16(b0, 4*k) && tuples[k].SAFI == b0[4*k+2] && tuples[k].Tx == (b0[4*k+3] >= 2) && tuples[k].Rx == (b0[4*k+3] == 1 || b0[4*k+3] == 3)
+//@   loop#0 decreases len(b)
+
+//@ func NewAddPathCapability returns (r)
+//@   ensures [code]   r.Code == 69
+//@   ensures [length] len(r.Value) == 4 * len(tuples)
+//@   ensures [values] forall k :: 0 <= k && k < len(tuples) ==> be16(r.Value, 4*k) == tuples[k].AFI && r.Value[4*k+2] == tuples[k].SAFI && r.Value[4*k+3] == srCode(tuples[k].Tx, tuples[k].Rx)
+//@   loop#0 invariant [count]  len(value) == 4 * (rangeindex + 1) && fresh(value.arr) && rangeindex >= -1
+//@   loop#0 invariant [values] forall k :: 0 <= k && k <= rangeindex ==> be16(value, 4*k) == tuples[k].AFI && value[4*k+2] == tuples[k].SAFI && value[4*k+3] == srCode(tuples[k].Tx, tuples[k].Rx)
+
+//@ func NewMPExtensionsCapability returns (r)
+//@   ensures [layout] r.Code == 1 && len(r.Value) == 4 && be16(r.Value, 0) == afi && r.Value[2] == 0 && r.Value[3] == safi
+
+//@ func newFourOctetASCap returns (c)
+//@   ensures [layout] c.Code == 65 && len(c.Value) == 4 && be32(c.Value, 0) == asn && fresh(c.Value.arr)
+
+//@ func Capability.encode returns (r)
+//@   ensures [layout] len(r) == 2 + len(c.Value) && r[0] == c.Code && r[1] == len(c.Value) % 256 && (forall i :: 0 <= i && i < len(c.Value) ==> r[2+i] == c.Value[i])
+//@   ensures [fresh]  fresh(r.arr)
+
+// ---- OPEN decoding (C02, C15, C05) ----
+
+// One capabilities optional parameter. The precondition len(b) <= 255 is what
+// keeps the uint8 expression capLen+2 from wrapping; it is established by
+// openMessage.decode (the optional parameters length is a single octet).
+//@ func capabilityOptionalParam.decode returns (err)
+//@   requires [fits_octet] len(b) <= 255
+//@   requires [fresh_param] c.capabilities == nil
+//@   ghost b0 = b
+//@   ghostvar offs intarray = emptyArr()
+//@   ghostvar fpos int = 0
+//@   at call append#0 set offs = store(offs, len(c.capabilities), offsetIn(b, b0))
+//@   at call append#0 after set fpos = offsetIn(b, b0) + 2 + b[1]
+//@   loop#0 invariant [suffix]  suffixOf(b, b0) && len(b0) <= 255 && fpos == offsetIn(b, b0)
+//@   loop#0 invariant [fresh]   len(c.capabilities) == 0 ? c.capabilities == nil : fresh(c.capabilities.arr)
+//@   loop#0 invariant [chain]   capChain(b0, offs, len(c.capabilities), offsetIn(b, b0))
+//@   loop#0 invariant [entries] forall k :: 0 <= k && k < len(c.capabilities) ==> capOK(b0, offs[k]) && capIs(c.capabilities[k], b0, offs[k])
+//@   loop#0 decreases len(b)
+//@   ensures [accept_chain] err == nil ==> len(c.capabilities) >= 1 && capChain(b, offs, len(c.capabilities), len(b)) && fresh(c.capabilities.arr)
+//@   ensures [entries]      err == nil ==> (forall k :: 0 <= k && k < len(c.capabilities) ==> capOK(b, offs[k]) && capIs(c.capabilities[k], b, offs[k]))
+//@   ensures [fault_class]  err != nil ==> isOutNotifErr(err, 2, 0) && len(notifOf(err).Data) == 0
+//@   ensures [fault_at_parse_position] err != nil ==> capChain(b, offs, len(c.capabilities), fpos) && 0 <= fpos && fpos <= len(b) && !capOK(b, fpos)
+//@   modifies c.capabilities
+
+//@ func decodeOptionalParams returns (r, err)
+//@   requires [fits_octet] len(b) <= 255
+//@   ghost b0 = b
+//@   ghostvar poffs intarray = emptyArr()
+//@   ghostvar fpos int = 0
+//@   ghostvar ftype bool = false
+//@   ghostvar fcap bool = false
+//@   at call decode#0 set poffs = store(poffs, len(params), offsetIn(b, b0) - 2 - len(arg1))
+//@   at call decode#0 after set capOffs(c) = callee_offs
+//@   at call decode#0 after set fcap = result != nil
+//@   at call decode#0 after assert [bridge] result == nil ==> len(arg1) >= 2 && sameSlice(arg1, b0[poffs[len(params)] + 2 : poffs[len(params)] + 2 + b0[poffs[len(params)] + 1]]) && capsDecoded(c, arg1, callee_offs)
+//@   at call decode#0 after assert [old_entries_after_decode] forall k :: 0 <= k && k < len(params) ==> asType(params[k], *capabilityOptionalParam) != c && capOK(b0, poffs[k]) && paramIs(params[k], b0, poffs[k]) && allocated(asType(params[k], *capabilityOptionalParam))
+//@   at call append#0 after set fpos = offsetIn(b, b0)
+//@   at call append#0 after assert [new_entry] capOK(b0, poffs[len(result)-1]) && paramIs(result[len(result)-1], b0, poffs[len(result)-1]) && allocated(asType(result[len(result)-1], *capabilityOptionalParam))
+//@   at call append#0 after assert [old_entries] forall k :: 0 <= k && k < len(result) - 1 ==> capOK(b0, poffs[k]) && paramIs(result[k], b0, poffs[k]) && allocated(asType(result[k], *capabilityOptionalParam))
+//@   at call newNotification#2 set ftype = true
+//@   loop#0 invariant [suffix]  suffixOf(b, b0) && len(b0) <= 255 && fpos == offsetIn(b, b0) && !ftype && !fcap && fresh(params.arr)
+//@   loop#0 invariant [chain]   capChain(b0, poffs, len(params), offsetIn(b, b0))
+//@   loop#0 invariant [entries] forall k :: 0 <= k && k < len(params) ==> capOK(b0, poffs[k]) && paramIs(params[k], b0, poffs[k]) && allocated(asType(params[k], *capabilityOptionalParam))
+//@   loop#0 decreases len(b)
+//@   ensures [accept_chain] err == nil ==> len(r) >= 1 && capChain(b, poffs, len(r), len(b))
+//@   ensures [entries]      err == nil ==> (forall k :: 0 <= k && k < len(r) ==> capOK(b, poffs[k]) && paramIs(r[k], b, poffs[k]))
+//@   ensures [nil_on_error] err != nil ==> r == nil
+//@   ensures [fault_class]  err != nil ==> isOutNotifErr(err, 2, ftype ? 4 : 0) && len(notifOf(err).Data) == 0
+//@   ensures [fault_truncated] err != nil && !ftype && !fcap ==> 0 <= fpos && fpos <= len(b) && !capOK(b, fpos)
+//@   ensures [fault_unknown_type] ftype ==> capOK(b, fpos) && b[fpos] != 2
+//@   ensures [fault_in_capabilities] fcap ==> capOK(b, fpos) && b[fpos] == 2
